@@ -131,6 +131,14 @@ class StoreDomain(ExactCollections, ReplyDomain):
     def mark_imprecise(self, state, node):
         return state.set("#imprecise", 1)
 
+    def never_none(self, v):
+        return isinstance(v, ReaderV) or super().never_none(v)
+
+    def truth(self, v, state=None):
+        if isinstance(v, ReaderV):
+            return True  # a function object
+        return super().truth(v, state)
+
     def name_load(self, name, state, node=None):
         if state.has(name):
             return state.get(name)
